@@ -59,7 +59,7 @@ def readRespected (r : (String × String) × (String × String)) : Bool :=
     | _, _, _ => false
 
 /-- **every update rule only reads values that are already up to date in the canonical order** -/
-theorem order_respects_reads : recordedReads.all readRespected = true := by decide
+theorem order_respects_reads : recordedReads.all readRespected = true := by decide +kernel
 
 /-- every class that has calculated attributes has a rank in the canonical order -/
 theorem every_class_ranked :
